@@ -265,8 +265,100 @@ func genDst(rt *rapid.T, src img.Spec) img.Spec {
 	return d
 }
 
+// fresh-process probes (see ev.ProbeOrders): the first transform of a process at each parallelism and for each
+// fast-path type pair, and a soak of many small calls (state recycled from call to call: pools, generation
+// counters, caches keyed by colour)
+func init() {
+	for _, par := range []int{1, 2, 3, 6, 7, 16, 300} {
+		for _, tp := range [][2]string{{"RGBA64", "RGBA64"}, {"NRGBA", "NRGBA64"}, {"RGBA", "RGBA"}, {"YCbCr", "RGBA64"}, {"Paletted", "NRGBA"}} {
+			par, tp := par, tp
+			ev.RegisterProbe(fmt.Sprintf("first-%s-to-%s-par%d", tp[0], tp[1], par), func() string {
+				for i, tr := range []string{"srgb.Linearise", "prophotorgb.Encode", "custom"} {
+					c := Case{Src: img.Spec{Type: tp[0], Rect: [4]int{0, 0, 40, 11}, Parent: [4]int{0, 0, 40, 11}, Fill: []string{"ramp", "prng", "flatrows"}[i], Seed: uint64(3 + i), PalN: 256},
+						Dst: img.Spec{Type: tp[1], Rect: [4]int{0, 0, 40, 11}, Parent: [4]int{0, 0, 40, 11}, Fill: "ramp", Seed: 9, PalN: 16}, Par: par, Transform: tr}
+					if k, w, _ := check(c); k != "" {
+						return w
+					}
+				}
+				return ""
+			})
+		}
+	}
+	ev.RegisterProbe("soak:many small transforms", func() string { return manySmall(140000) })
+}
+
+// manySmall runs n small RGBA64 -> RGBA64 transforms (the fast path every per-call resource serves), cycling
+// through the transforms, and compares every result with the per-colour function.
+func manySmall(n int) string {
+	// colour number j: unique to j (a counter-derived, validly premultiplied colour)
+	u := func(j int) color.RGBA64 {
+		if j < 0 {
+			j = -j
+		}
+		x := uint64(j)*0x9E3779B97F4A7C15 + 0x1234567
+		x ^= x >> 29
+		a := uint16(0xFFFF)
+		if j%3 == 0 {
+			a = uint16(x>>48) | 1
+		}
+		return color.RGBA64{R: uint16(uint32(uint16(x)) * uint32(a) / 0xFFFF), G: uint16(uint32(uint16(x>>16)) * uint32(a) / 0xFFFF), B: uint16(uint32(uint16(x>>32)) * uint32(a) / 0xFFFF), A: a}
+	}
+	// call i carries its own colour and the colours of the calls 255, 256, 257, 65535, 65536 and 65537 calls ago
+	// (counters and stamps wrap at such distances), each met again under another transform and not in between
+	dist := []int{0, 255, 256, 257, 65535, 65536, 65537}
+	src, dst := image.NewRGBA64(image.Rect(0, 0, len(dist), 1)), image.NewRGBA64(image.Rect(0, 0, len(dist), 1))
+	type tf struct {
+		apply func(draw.Image, image.Image, int)
+		f     func(color.Color) color.RGBA64
+	}
+	var tfs []tf
+	for _, name := range Transforms {
+		a, f := resolve(name)
+		tfs = append(tfs, tf{a, f})
+	}
+	// phase A (the first n calls): very few colours in all - a common one, and per distance d a rare one that occurs
+	// only every d-th call - so that nothing a call leaves behind about a rare colour is disturbed until it returns;
+	// phase B (20000 more calls): every colour new, each returning after 255..65537 calls
+	rare := func(d int) color.RGBA64 { return u(1000000 + d) }
+	common := u(999)
+	for i := 0; i < n+20000; i++ {
+		t := tfs[i%len(tfs)]
+		pick := func(d int) color.RGBA64 {
+			if i < n {
+				if d > 0 && i%d == 0 {
+					return rare(d)
+				}
+				return common
+			}
+			return u(i - d)
+		}
+		for x, d := range dist {
+			src.SetRGBA64(x, 0, pick(d))
+		}
+		// the first 2^16 + some calls with one worker (one set of per-call resources handed from call to call), the
+		// rest alternating one and two workers
+		par := 1
+		if i >= 1<<16+4000 {
+			par = 1 + i%2
+		}
+		if pn, m := ev.Guard(func() { t.apply(dst, src, par) }); pn {
+			return fmt.Sprintf("call %d of many small transforms panicked: %s", i+1, m)
+		}
+		for x, d := range dist {
+			c := pick(d)
+			if got, want := dst.RGBA64At(x, 0), t.f(c); got != want {
+				return fmt.Sprintf("call %d of a long run of %dx1 RGBA64 transforms (%s): pixel %d %v (last seen %d calls ago under another transform) became %v, the per-colour function gives %v", i+1, len(dist), Transforms[i%len(tfs)], x, c, d, got, want)
+			}
+		}
+	}
+	return ""
+}
+
 func TestC10(t *testing.T) {
 	if ev.Replaying() != nil {
+		if ev.ReplayOrder(t) {
+			return
+		}
 		var c Case
 		if err := ev.ReplayCase(&c); err != nil {
 			t.Fatal(err)
@@ -277,8 +369,9 @@ func TestC10(t *testing.T) {
 		fmt.Println("REPLAY case passed")
 		return
 	}
-	ev.Rule("rapid: source of every standard image type (incl. opaque wrapper, sub-images, negative origins, empty/1xN/Nx1, a quarter with 10..40 rows), destination of every standard draw.Image type (RGBA64, RGBA, NRGBA, NRGBA64, Gray, Gray16, Alpha, Alpha16, CMYK, Paletted) or an opaque wrapper with its own origin, size = source + (0..3, 0..3) (a fifth with exactly the source's bounds, half of those of the source's type), optionally a sub-image of a sentinel-filled parent; parallelism in {1,2,3,7,16,rows+5}; transform in {Linearise,Encode} x 4 spaces + TransformImageColor with an injective channel-rotating function; in-place for the draw.Image types; an eighth of the cases use two disjoint sub-images of one canvas as source and destination. Also a fixed cross product of source types x destination types x parallelism x transforms on awkward geometry, and banners (1-3 rows of 129..20000 pixels, widths around powers of two, sub-image destinations, in-place; a tenth of the rapid images and a sweep over every type pair). Oracle: Set()-based model on a clone, whole parent buffers compared byte for byte. non-trivial = distinct case with differing origins, a sub-image, parallelism>1 with >=2 rows, a concrete fast path, or in-place")
+	ev.Rule("fresh-process probes: the first transform of a process for 5 type pairs x parallelism {1,2,3,6,7,16,300} (each once as the first action of a process, generated orders, environment presets) and a soak of 140000 seven-pixel RGBA64 transforms in which rare colours recur exactly 255..257 and 65535..65537 calls later under another transform (first among very few colours, then among all-new ones), checked against the per-colour function (as a process's first action, and again at the end of the run); rapid: source of every standard image type (incl. opaque wrapper, sub-images, negative origins, empty/1xN/Nx1, a quarter with 10..40 rows), destination of every standard draw.Image type (RGBA64, RGBA, NRGBA, NRGBA64, Gray, Gray16, Alpha, Alpha16, CMYK, Paletted) or an opaque wrapper with its own origin, size = source + (0..3, 0..3) (a fifth with exactly the source's bounds, half of those of the source's type), optionally a sub-image of a sentinel-filled parent; parallelism in {1,2,3,7,16,rows+5}; transform in {Linearise,Encode} x 4 spaces + TransformImageColor with an injective channel-rotating function; in-place for the draw.Image types; an eighth of the cases use two disjoint sub-images of one canvas as source and destination. Also a fixed cross product of source types x destination types x parallelism x transforms on awkward geometry, and banners (1-3 rows of 129..20000 pixels, widths around powers of two, sub-image destinations, in-place; a tenth of the rapid images and a sweep over every type pair). Oracle: Set()-based model on a clone, whole parent buffers compared byte for byte. non-trivial = distinct case with differing origins, a sub-image, parallelism>1 with >=2 rows, a concrete fast path, or in-place")
 	ev.Assume("the per-colour functions themselves are checked by C01/C02/C14; destination at least as large as the source (the documented precondition)")
+	ev.ProbeOrders(ev.Pick(1, 10))
 	// fixed cross product
 	n := 0
 	for _, st := range img.Types {
@@ -426,6 +519,10 @@ func TestC10(t *testing.T) {
 			ev.Fail(rt, "transform", k, w, c)
 		}
 	})
+	ev.Eval(140000)
+	if msg := manySmall(140000); msg != "" {
+		ev.Violation("transform", "many-small-calls", msg, Case{Transform: "many small calls"})
+	}
 	if ev.Violations() > 0 {
 		t.Fail()
 	}
